@@ -153,6 +153,16 @@ def accepted_mutants(ctx):
             continue
         ctx.tags["ill-defined-model-accepted-by-errors"] += 1
         do_case(ctx, {"ast": m})
+    for _ in range(40 if ctx.quick else 200):
+        m = lookalike_model(ctx.rng)
+        try:
+            om = build(m)
+            if is_var(om) or om.errors():
+                continue                    # rejected, as every one of them is by the unchanged validation
+        except Exception:
+            continue
+        ctx.tags["look-alike-ill-defined-model-accepted-by-errors"] += 1
+        do_case(ctx, {"ast": m})
 
 
 def run(ctx):
